@@ -188,7 +188,9 @@ def gen_factory(tier):
                     rs = r if isinstance(r, tuple) else (r,)
                     if route == "istmt" and any(x.count(";") > 1 and not x.startswith("function") and "loop" not in x and "begin" not in x and "if" not in x for x in rs):
                         continue
-                    ops = [op_ctx(0), op_run(ptext), op_dump(0), "funcs 0"]
+                    # statement-wise hosts also compile what came before statement by statement (each accepted statement is final)
+                    proute = "istmt" if route == "istmt" else "cpp"
+                    ops = [op_ctx(0), op_run(ptext, route=proute), op_dump(0), "funcs 0"]
                     for x in rs:
                         ops.append(op_run(x, route=route))
                     ops += [op_dump(0), "funcs 0", op_out(0), op_run(probes), op_out(0), op_run(qprobe), op_out(0), op_dump(0), "funcs 0",
